@@ -230,12 +230,12 @@ func genRich(t *core.Tape, tier, prop string) *Scenario {
 				}
 			}
 		}
-		if p.Kind == KClient && !p.HErr.Plain && p.HErr.CtxKind == 0 && t.Bool(1, 5, "err.from.interceptor.after") {
+		if prop != "C05" && p.Kind == KClient && !p.HErr.Plain && p.HErr.CtxKind == 0 && t.Bool(1, 5, "err.from.interceptor.after") {
 			// the handler drains the request and responds; a handler-side
 			// interceptor fails afterwards: the message, then the error
 			sc.Handlers[0].NIntercept = 1 + t.Choose(3, "nintercept")
 			p.InterceptorErrAfter = true
-			stdPrograms(t, p)
+			p.HProg = []HOp{{Op: "drain"}}
 			sc.Notes["err_from_interceptor_after_response"]++
 		} else if prop == "C02" && t.Bool(1, 5, "err.from.interceptor") {
 			// the error comes from a handler-side interceptor: user code never
